@@ -601,6 +601,26 @@ def rule_h(ctx):
                'accessor_writable to True for good)', f.loc,
                f'use_value_spec(None) at line {calls[0].lineno if calls else 0}: after this call the object accepts accessor '
                f'writes although it was created with accessor_writable=False')
+        # the re-application writes defaults through the item accessor
+        # (Schema.apply: `dict_obj[key] = value`): not a user assignment, so it
+        # runs with accessor writes allowed, else accessor_writable=False makes
+        # the mutator fail half-way (storage already emptied)
+        re_apply = [x for x in A.calls_in(f.node) if (A.call_name(x) or '') == 'self.use_value_spec' and x not in calls]
+        def in_writable_scope(call):
+          for w in ast.walk(f.node):
+            if isinstance(w, ast.With) and any(call is y for b in w.body for y in ast.walk(b)):
+              for it in w.items:
+                e = it.context_expr
+                if isinstance(e, ast.Call) and (A.call_name(e) or '').split('.')[-1] == 'allow_writable_accessors' \
+                    and (not e.args or A.unparse(e.args[0]) == 'True'):
+                  return True
+          return False
+        outside = [x.lineno for x in re_apply if not in_writable_scope(x)]
+        ctx.ob('C08.h', f.fq + '#refill-scope', not outside,
+               'a mutator re-applies the value spec (which writes defaults through the item accessor) under '
+               'allow_writable_accessors(True): accessor_writable=False concerns user assignments only',
+               f.loc, f'use_value_spec at line(s) {outside} runs with the object\'s own accessor_writable flag: on an '
+               f'accessor_writable=False value the call raises after the storage was changed')
 
 
 def rule_g(ctx):
